@@ -237,7 +237,7 @@ def _run_deep(spec):
     from vpbt.checks import c02
 
     col = Collector()
-    f, n = {"nest": (c02._big_nest, spec[1]), "comb": (c02._big_comb, spec[1])}[spec[2]]
+    f, n = {"nest": (c02._big_nest, spec[1]), "comb": (c02._big_comb, spec[1]), "exits": (c02._big_exits, spec[1]), "entries": (c02._big_entries, spec[1])}[spec[2]]
     intg = f(n)
     _eval(col, intg, gg.restyle(intg, "num"), "deep")
     return col.result()
@@ -267,7 +267,7 @@ def plan(tier, seed):
     specs = sweep.plan(tier, seed, scale=0.5 if tier == "quick" else 0.35)
     if tier == "quick":
         specs += [("byteflow", s, 16, 25) for s in range(16)]
-        specs += [("multiway", seed, s, 400) for s in range(8)] + [("deep", 40, "nest"), ("deep", 40, "comb")]
+        specs += [("multiway", seed, s, 400) for s in range(8)] + [("deep", 40, "nest"), ("deep", 40, "comb"), ("deep", 9, "exits"), ("deep", 9, "entries")]
     else:
         specs += [("byteflow", s, 16, 10**9) for s in range(16)]
         specs += [("multiway", seed, s, 3000) for s in range(8)] + [("deep", 40, "nest"), ("deep", 40, "comb"), ("deep", 120, "nest"), ("deep", 120, "comb")]
